@@ -1,6 +1,7 @@
 package main
 
 import (
+	"math"
 	"bytes"
 	"encoding/binary"
 	"fmt"
@@ -222,6 +223,41 @@ func c20Program(seed uint64, steps int) *transcript {
 			ot, e2 := oi.MarshalJSON()
 			leave(false)
 			t.add("clone-edit", ct, ot, []byte(fmt.Sprint(e1, e2)))
+			if r.Chance(1, 3) {
+				// a marshal call that fails half-way, deep inside containers (a non-finite float in the
+				// clone): whatever the failed call had in its hands must not reach a later call, of
+				// this goroutine or of another one
+				cl2 := cur.Clone(nil)
+				it2 := cl2.Iter()
+				depth, placed := 0, false
+				for k := 0; k < 400 && !placed; k++ {
+					switch it2.AdvanceInto() {
+					case simdjson.TagEnd:
+						k = 400
+					case simdjson.TagObjectStart, simdjson.TagArrayStart:
+						depth++
+					case simdjson.TagObjectEnd, simdjson.TagArrayEnd:
+						depth--
+					case simdjson.TagInteger, simdjson.TagUint, simdjson.TagFloat:
+						if depth >= 2 && it2.SetFloat(math.Inf(1)) == nil {
+							placed = true
+						}
+					}
+				}
+				if placed {
+					enter(false)
+					fi := cl2.Iter()
+					_, ferr := fi.MarshalJSON()
+					oi3 := cur.Iter()
+					ot3, e4 := oi3.MarshalJSON()
+					leave(false)
+					t.add("marshal-non-finite", []byte(fmt.Sprint(ferr != nil)), ot3, []byte(fmt.Sprint(e4)))
+					if e2 == nil && (e4 != nil || !bytes.Equal(ot, ot3)) {
+						t.add("MARSHAL-AFTER-A-FAILED-MARSHAL-DIFFERS")
+						t.broken = fmt.Sprintf("after a MarshalJSON call that failed on a non-finite float inside nested containers, marshalling an untouched document of the same goroutine gives (%v) instead of what it gave before", e4)
+					}
+				}
+			}
 			if r.Chance(1, 2) {
 				// the clone is this goroutine's own object: handing it to Parse as the reuse
 				// argument must leave the original alone
